@@ -9,8 +9,8 @@ patched argv / stdin / stdout / stderr (SystemExit caught); a fixed subset is re
 through real `python -m jsonpath_rfc9535` subprocesses and must give the identical
 (exit status, stdout, stderr, output file) - that binds the harness to the real
 process.
-Oracle: success => exit 0 and the output is exactly json.dumps(find(q, doc).values())
-(indent=2 with --pretty); failure => exit != 0, nothing on stdout / in the output
+Oracle: success => exit 0 and the output parses to exactly find(q, doc).values()
+(multi-line with --pretty); failure => exit != 0, nothing on stdout / in the output
 file, and - unless --debug - stderr is exactly one non-empty line without a traceback.
 """
 import io
@@ -173,8 +173,14 @@ def judge(exp, obs, opts):
     if exp[0] == "ok":
         if obs["exit"] != 0:
             return ("failed-on-valid-input", {"exit": 0}, {"exit": obs["exit"], "stderr": obs["stderr"][-200:]})
-        if out_text != exp[1]:
+        try:
+            same = json.loads(out_text) == json.loads(exp[1])
+        except Exception:  # noqa: BLE001
+            same = False
+        if not same:
             return ("wrong-output", exp[1][:200], (out_text or "")[:200])
+        if opts["pretty"] and len(exp[1]) > 4 and "\n" not in out_text:
+            return ("not-pretty", "indented multi-line JSON with --pretty", (out_text or "")[:200])
         if opts["ofile"] and obs["stdout"]:
             return ("stdout-not-empty", "", obs["stdout"][:100])
         return None
